@@ -73,6 +73,7 @@ def generate(rng, focus, tier="quick"):
                                "wd": rng.choice(cal.WEEKDAYS), "pm": rng.random() < 0.3})
     # several clock iterators alive at once, advanced under a seeded schedule: 0 and 1 iterate the judged clock,
     # 2 iterates another clock object (shifted range, other flags)
+    plan["clone"] = rng.choice(["copy", "deepcopy", "pickle"])
     plan["interleave"] = None
     if rng.random() < 0.5:
         n_it = rng.choice([2, 3, 3])
@@ -185,6 +186,22 @@ def _run(plan, ctx):
     except Exception as e:
         ctx.violate("C12", "clock_raised_on_second_iteration", {"exc": repr(e)[:300]})
         return
+    # a copy of the clock (copy / deepcopy / pickle round trip - a session shipped to another process) is the same clock
+    if ctx.judging("C12"):
+        import copy as _copy
+        import pickle as _pickle
+        how = plan.get("clone", "copy")
+        try:
+            twin = (_copy.copy(eng) if how == "copy" else
+                    (_copy.deepcopy(eng) if how == "deepcopy" else _pickle.loads(_pickle.dumps(eng))))
+            twin_events = [(ev.ts, ev.event_type) for ev in twin]
+        except Exception as e:
+            ctx.violate("C12", "clock_copy_raised", {"how": how, "exc": repr(e)[:300]})
+            return
+        ctx.check("C12", twin_events == events, "copied_clock_differs_from_the_original",
+                  lambda: {"how": how, "pre": plan["pre"], "post": plan["post"], "n_original": len(events),
+                           "n_copy": len(twin_events), "first_of_copy": [(str(t), k_) for t, k_ in twin_events[:2]]},
+                  sig="copied_clock_differs_from_the_original")
     il = plan.get("interleave")
     if il and ctx.judging("C12"):
         try:
